@@ -3,29 +3,34 @@
 
    The state is a workspace (ProtoValid records).  Init: a few small VALID workspaces.  Steps:
      - additive EDITS (AddMsg AddEnum AddVal AddFld AddMap AddOneof AddExt AddSvc AddMtd AddImport
-       AddRange AddRName) with parameters from small pools; an edit is taken when the result is valid
-       (then more edits may follow, up to MaxSize) or breaks exactly ONE rule (a near-valid mutant);
+       AddRange AddRName AddDflt AddJson) with parameters from small pools; an edit is taken when the
+       result is valid (nadd counts them, at most MaxAdds); the small ones (MutAdds) are also taken when
+       the result breaks exactly ONE rule (a near-valid mutant);
      - deliberate MUTATIONS of one attribute of a valid workspace (SetNum SetLabel Retarget SetSyntax
-       SetName SetPkg SetValNum DropLeaf SetMapKey SetDflt SetJson SetStream) that are taken only
-       when the result breaks exactly one rule.
+       SetName SetPkg SetValNum DropLeaf SetMapKey SetDflt) that are taken only when the result
+       breaks exactly one rule.
    `tag` = ProtoValid!Broken of the state: {} for a valid workspace, {rule} for a mutant; mutants are
    terminal.  Only Covered workspaces are generated.  TLC BFS enumerates every workspace within the
-   size bound; every state is exported with Valid / broken rule ids / references with their lookup
+   edit bound; every state is exported with Valid / broken rule ids / references with their lookup
    rule ids / the expected descriptor of every user file (valid states). *)
 EXTENDS ProtoValid, TLC, Json
 
 CONSTANTS
-  Bases,       \* subset of {"p2","p3","ed","p2p2","p3p2","p2p3","edp2","p3p3"}: initial workspaces
-  Pkg1Ids,     \* packages of f1: subset of {"none","a","ab","b"}
-  MaxSize,     \* bound on declarations + imports of the user files
+  Bases,       \* initial workspaces: small {"p2","p3","ed","p2p2","p3p2","p2p3","edp2","p3p3"}, rich {"R2","R3","RE"}
+  Pkg1Ids,     \* packages of f1 in the small bases: subset of {"none","a","ab","b"}
+  MaxAdds,     \* bound on the number of additive edits applied to a base
+  GrowBases,   \* bases that additive edits are applied to
+  MutBases,    \* bases whose (valid) descendants are mutated ...
+  MutMaxN,     \* ... as long as at most this many additive edits were applied
+  WideKinds,   \* kinds of symbols whose spellings a Retarget mutation tries (besides packages and bogus names)
   TypeNames, FldNames, ValNames, ExtNames,
   ScalarPool,  \* scalar types used by edits
   Edits,       \* enabled additive edit kinds
   MutAdds,     \* additive edit kinds that may also yield a one-rule mutant (subset of the small ones)
   Muts         \* enabled mutation kinds
 
-VARIABLES ws, tag
-vars == <<ws, tag>>
+VARIABLES ws, tag, nadd, base
+vars == <<ws, tag, nadd, base>>
 
 PkgOf(id) == CASE id = "a" -> <<"a">> [] id = "ab" -> <<"a", "b">> [] id = "b" -> <<"b">> [] OTHER -> <<>>
 Syn(c) == CASE c = "2" -> "proto2" [] c = "3" -> "proto3" [] OTHER -> "editions"
@@ -50,34 +55,55 @@ BaseWs(b, p) ==
     [] b = "p3p3" -> << F1For("proto3", p, <<Imp("f2.proto", "plain")>>), F2For("proto3") >>
     [] OTHER      -> << F1For("editions", p, <<Imp("f2.proto", "plain")>>), F2For("proto2") >>
 
-(* size of a workspace: declarations + imports + ranges + reserved names + defaults + json names *)
-DeclSize(dl) == 1 + Len(dl.xr) + Len(dl.rr) + Len(dl.rn) + (IF dl.dflt # "" THEN 1 ELSE 0)
-                + (IF dl.json # "" THEN 1 ELSE 0) + (IF dl.cs \/ dl.ss THEN 1 ELSE 0)
-RECURSIVE DeclsSize(_)
-DeclsSize(ds) == IF ds = <<>> THEN 0 ELSE DeclSize(Head(ds)) + DeclsSize(Tail(ds))
-RECURSIVE Size(_)
-Size(w) == IF w = <<>> THEN 0 ELSE Len(Head(w).imports) + DeclsSize(Head(w).decls) + Size(Tail(w))
+(* rich bases: one of (nearly) every construct, so that every rule is one mutation away *)
+F2Rich == XFile("f2.proto", <<"b">>, "proto2", <<>>,
+                << [XMsg("m", 0) EXCEPT !.xr = << <<100, 199>> >>], XFld("zf", 1, 1, "optional", TScalar("int32")),
+                   XEnum("a", 0), XVal("zc", 3, 0) >>)
+RichF1(syn, pkg) ==
+  LET sing == Singular(syn)
+      p3 == syn = "proto3"
+  IN XFile("f1.proto", pkg, syn, <<Imp("f2.proto", "plain")>>,
+       << [XMsg("m", 0) EXCEPT !.xr = IF p3 THEN <<>> ELSE << <<100, 199>> >>, !.rr = << <<5, 6>> >>, !.rn = <<"zg">>],
+          XFld("zf", 1, 1, sing, TScalar("int32")),
+          [XFld("z_f", 1, 2, IF syn = "editions" THEN "" ELSE "optional", TRef(Rel(<<"b">>))) EXCEPT !.dflt = IF p3 THEN "" ELSE "zb"],
+          XMap("zm", 1, 3, "string", TScalar("int32")),
+          XOneof("zo", 1),
+          XFld("zi", 5, 4, "", TScalar("string")),
+          XMsg("a", 1),
+          XFld("zh", 1, 7, "repeated", TRef(Abs(<<"b", "m">>))),
+          XEnum("b", 0), XVal("za", 9, 0), XVal("zb", 9, 1),
+          XSvc("zs"), [XMtd("zr", 12, Rel(<<"m">>), Abs(<<"b", "m">>)) EXCEPT !.ss = TRUE],
+          XFld("zk", 1, 8, sing, TRef(Rel(<<"m">>))) >>
+       \o (IF p3 THEN << >> ELSE << XExt("zx", 0, 100, sing, Rel(<<"m">>), TScalar("int32")),
+                                     XExt("zy", 1, 101, "repeated", Abs(pkg \o <<"m">>), TRef(Rel(<<"b">>))) >>))
+RichWs(b) == CASE b = "R2" -> << RichF1("proto2", <<"a">>), F2Rich >>
+               [] b = "R3" -> << RichF1("proto3", <<"a", "b">>), F2Rich >>
+               [] OTHER    -> << RichF1("editions", <<"a">>), F2Rich >>
+IsRich(b) == b \in {"R2", "R3", "RE"}
+
 
 -----------------------------------------------------------------------------
-(* acceptance of a candidate successor.  mode "edit": the result must be valid and within the size
+(* acceptance of a candidate successor.  mode "edit": the result must be valid and within the edit
    bound; mode "mut": exactly one rule must break; mode "both": either.  The rules that need no name
    lookup are evaluated first so that most rejected candidates cost little. *)
 Accept(w2, mode) ==
   LET sane == Sane(w2)
       b0 == ImportBroken(w2) \cup SymbolBroken(sane)
             \cup UNION {StructBroken(sane[g]) : g \in {h \in Files(sane) : ~sane[h].builtin}}
-      okSize == Size(w2) <= MaxSize
-  IN /\ (CASE mode = "edit" -> b0 = {} /\ okSize
+      okSize == nadd < MaxAdds /\ base \in GrowBases
+  IN /\ (CASE mode = "edit" -> okSize /\ b0 = {}
            [] mode = "mut" -> Cardinality(b0) <= 1
-           [] OTHER -> (b0 = {} /\ okSize) \/ Cardinality(b0) = 1) = TRUE
+           [] OTHER -> (okSize /\ b0 = {}) \/ Cardinality(b0) = 1) = TRUE
      /\ LET refs == AllRefs(sane)
             b == b0 \cup RefBroken(sane, refs)
         IN /\ (CASE mode = "edit" -> b = {}
                  [] mode = "mut" -> Cardinality(b) = 1
                  [] OTHER -> (b = {} /\ okSize) \/ Cardinality(b) = 1) = TRUE
            /\ CoveredX(sane, refs) = TRUE
-           /\ ws' = w2 /\ tag' = b
+           /\ ws' = w2 /\ tag' = b /\ base' = base
+           /\ nadd' = IF b = {} THEN nadd + 1 ELSE nadd
 
+MutOK == tag = {} /\ base \in MutBases /\ nadd <= MutMaxN
 AddDecls(g, ds) == [ws EXCEPT ![g].decls = @ \o ds]
 SetDecl(g, d, dl) == [ws EXCEPT ![g].decls[d] = dl]
 
@@ -90,7 +116,7 @@ Suffixes(n) == {SubSeq(n, k, Len(n)) : k \in 1..Len(n)}
 SymSp(s) == {Rel(x) : x \in Suffixes(s.fqn)} \cup {Abs(s.fqn)}
 TypeSp == UNION {SymSp(s) : s \in {x \in AllDeclSyms(ws) : x.kind \in {"message", "enum"}}}
 MsgSp == UNION {SymSp(s) : s \in {x \in AllDeclSyms(ws) : x.kind = "message"}}
-WideSp == UNION {SymSp(s) : s \in AllDeclSyms(ws)} \cup {Rel(p) : p \in AllPkgs(ws)}
+WideSp == UNION {SymSp(s) : s \in {x \in AllDeclSyms(ws) : x.kind \in WideKinds}} \cup {Rel(p) : p \in AllPkgs(ws)}
           \cup {Rel(<<"c">>), Rel(<<"a", "c">>), Rel(<<"m", "c">>), Abs(<<"c">>)}
 TypeChoices == {TScalar(s) : s \in ScalarPool} \cup {TRef(sp) : sp \in TypeSp}
 
@@ -101,7 +127,6 @@ FreeNum(F, m) ==
     /\ \A k \in 1..(n - 1) : k \in UsedNums(F, m) \/ InRanges(k, F.decls[m].rr) \/ InRanges(k, F.decls[m].xr)
 Labels == {"", "optional", "required", "repeated"}
 RangePool == {<<2, 3>>, <<3, 5>>, <<100, 199>>, <<150, 160>>, <<1000, MaxFieldNum>>}
-ExtNumPool == {100, 101, 1000}
 
 -----------------------------------------------------------------------------
 (* additive edits *)
@@ -113,7 +138,7 @@ AddEnum == "AddEnum" \in Edits /\ tag = {} /\
     Accept(AddDecls(g, << XEnum(n, p), XVal(v, Len(ws[g].decls) + 1, 0) >>), "edit")
 AddVal == "AddVal" \in Edits /\ tag = {} /\
   \E g \in UFiles : \E e \in OfKind(ws[g], "enum") : \E v \in ValNames : \E num \in 0..2 :
-    Accept(AddDecls(g, << XVal(v, e, num) >>), IF "AddVal" \in MutAdds THEN "both" ELSE "edit")
+    Accept(AddDecls(g, << XVal(v, e, num) >>), IF "AddVal" \in MutAdds /\ MutOK THEN "both" ELSE "edit")
 AddFld == "AddFld" \in Edits /\ tag = {} /\
   \E g \in UFiles : \E p \in MsgsOf(g) \cup OfKind(ws[g], "oneof") : \E n \in FldNames :
     \E l \in Labels : \E ty \in TypeChoices :
@@ -126,10 +151,15 @@ AddMap == "AddMap" \in Edits /\ tag = {} /\
 AddOneof == "AddOneof" \in Edits /\ tag = {} /\
   \E g \in UFiles : \E p \in MsgsOf(g) : \E n \in FldNames : \E ty \in TypeChoices :
     Accept(AddDecls(g, << XOneof("zo", p), XFld(n, Len(ws[g].decls) + 1, FreeNum(ws[g], p), "", ty) >>), "edit")
+(* extension numbers: inside some declared extension range of the workspace (first and second
+   number of every range), so that the extendee decides; no range declared => no candidate *)
+ExtNums == UNION {UNION {UNION {{r[1], r[1] + 1} \cap (r[1]..r[2]) : r \in Range(ws[g].decls[m].xr)}
+                           : m \in MsgsOf(g)} : g \in UFiles}
 AddExt == "AddExt" \in Edits /\ tag = {} /\
-  \E g \in UFiles : \E p \in {0} \cup MsgsOf(g) : \E n \in ExtNames : \E num \in ExtNumPool :
-    \E l \in {"optional", "repeated", ""} : \E x \in MsgSp : \E ty \in TypeChoices :
-      Accept(AddDecls(g, << XExt(n, p, num, l, x, ty) >>), "edit")
+  \E g \in UFiles : \E p \in {0} \cup MsgsOf(g) : \E n \in ExtNames : \E num \in ExtNums :
+    \E l \in {Singular(ws[g].syntax), "repeated"} : \E x \in MsgSp :
+      \E ty \in {TScalar(CHOOSE sc \in ScalarPool : TRUE)} \cup {TRef(sp) : sp \in {y \in TypeSp : y.abs}} :
+        Accept(AddDecls(g, << XExt(n, p, num, l, x, ty) >>), "edit")
 AddSvc == "AddSvc" \in Edits /\ tag = {} /\
   \E g \in UFiles : \E n \in {"zs", "a"} : \E i \in MsgSp : \E o \in MsgSp :
     Accept(AddDecls(g, << XSvc(n), XMtd("zr", Len(ws[g].decls) + 1, i, o) >>), "edit")
@@ -139,42 +169,61 @@ AddMtd == "AddMtd" \in Edits /\ tag = {} /\
       Accept(AddDecls(g, << [XMtd(n, s, i, o) EXCEPT !.cs = st[1], !.ss = st[2]] >>), "edit")
 AddImport == "AddImport" \in Edits /\ tag = {} /\
   \E g \in UFiles : \E path \in PathsOf(ws) \cup {"f9.proto"} : \E k \in {"plain", "public"} :
-    Accept([ws EXCEPT ![g].imports = Append(@, Imp(path, k))], IF "AddImport" \in MutAdds THEN "both" ELSE "edit")
+    Accept([ws EXCEPT ![g].imports = Append(@, Imp(path, k))], IF "AddImport" \in MutAdds /\ MutOK THEN "both" ELSE "edit")
 AddRange == "AddRange" \in Edits /\ tag = {} /\
   \E g \in UFiles : \E m \in MsgsOf(g) : \E r \in RangePool : \E which \in {"xr", "rr"} :
     Accept(IF which = "xr" THEN [ws EXCEPT ![g].decls[m].xr = Append(@, r)]
-           ELSE [ws EXCEPT ![g].decls[m].rr = Append(@, r)], IF "AddRange" \in MutAdds THEN "both" ELSE "edit")
+           ELSE [ws EXCEPT ![g].decls[m].rr = Append(@, r)], IF "AddRange" \in MutAdds /\ MutOK THEN "both" ELSE "edit")
 AddRName == "AddRName" \in Edits /\ tag = {} /\
-  \E g \in UFiles : \E m \in MsgsOf(g) : \E n \in FldNames :
-    Accept([ws EXCEPT ![g].decls[m].rn = Append(@, n)], IF "AddRName" \in MutAdds THEN "both" ELSE "edit")
+  \E g \in UFiles : \E m \in MsgsOf(g) : \E n \in FldNames \cup Range(ws[g].decls[m].rn) :
+    Accept([ws EXCEPT ![g].decls[m].rn = Append(@, n)], IF "AddRName" \in MutAdds /\ MutOK THEN "both" ELSE "edit")
 
 -----------------------------------------------------------------------------
 (* deliberate mutations of a valid workspace: one attribute changes, exactly one rule must break *)
 FldsExts(g) == Flds(ws[g]) \cup ExtDecls(ws[g])
-BadNums(F, d) ==
-  {0, 19000, 19999, MaxFieldNum + 1, 7}
-  \cup {F.decls[x].num : x \in Flds(F) \cup ExtDecls(F)}
-  \cup UNION {{r[1], r[2]} : r \in UNION {Range(F.decls[m].rr) \cup Range(F.decls[m].xr) : m \in OfKind(F, "message")}}
-MutSetNum == "SetNum" \in Muts /\ tag = {} /\
-  \E g \in UFiles : \E d \in FldsExts(g) : \E n \in BadNums(ws[g], d) \ {ws[g].decls[d].num} :
-    Accept(SetDecl(g, d, [ws[g].decls[d] EXCEPT !.num = n]), "mut")
-MutSetLabel == "SetLabel" \in Muts /\ tag = {} /\
-  \E g \in UFiles : \E d \in FldsExts(g) : \E l \in Labels \ {ws[g].decls[d].label} :
+(* FOCUS: mutations whose effect depends only on the mutated declaration itself (special numbers,
+   label, default, map key) are applied to the most recently added field / extension of a file only:
+   every declaration is the focus in the state right after the edit that added it, so each
+   (declaration shape, mutation) pair is still generated, once instead of once per later state.
+   Mutations that depend on the rest of the workspace (a sibling's number, a range end point, a
+   retargeted reference, a renamed or dropped declaration) are applied everywhere. *)
+Focus(g) == IF nadd = 0 THEN FldsExts(g)          \* a base: every declaration is new
+            ELSE IF FldsExts(g) = {} THEN {} ELSE {CHOOSE d \in FldsExts(g) : \A x \in FldsExts(g) : x <= d}
+SpecialNums == {0, 19000, 19999, MaxFieldNum + 1}
+ContextNums(F, d) ==
+  ({F.decls[x].num : x \in Flds(F) \cup ExtDecls(F)}
+   \cup UNION {{r[1], r[2]} : r \in UNION {Range(F.decls[m].rr) \cup Range(F.decls[m].xr) : m \in OfKind(F, "message")}}
+   \cup {7}) \ SpecialNums
+MutSetNum == "SetNum" \in Muts /\ MutOK /\
+  \E g \in UFiles : \E d \in FldsExts(g) :
+    \E n \in (ContextNums(ws[g], d) \cup (IF d \in Focus(g) THEN SpecialNums ELSE {})) \ {ws[g].decls[d].num} :
+      Accept(SetDecl(g, d, [ws[g].decls[d] EXCEPT !.num = n]), "mut")
+MutSetLabel == "SetLabel" \in Muts /\ MutOK /\
+  \E g \in UFiles : \E d \in Focus(g) : \E l \in Labels \ {ws[g].decls[d].label} :
     Accept(SetDecl(g, d, [ws[g].decls[d] EXCEPT !.label = l]), "mut")
-MutRetarget == "Retarget" \in Muts /\ tag = {} /\
+MutRetarget == "Retarget" \in Muts /\ MutOK /\
   \E g \in UFiles : \E s \in Sites(ws[g]) : \E sp \in WideSp \ {SlotSpelling(ws[g], s[1], s[2])} :
     Accept([ws EXCEPT ![g] = SetSlot(@, s[1], s[2], sp)], "mut")
-MutSetSyntax == "SetSyntax" \in Muts /\ tag = {} /\
+MutSetSyntax == "SetSyntax" \in Muts /\ MutOK /\
   \E g \in UFiles : \E s \in {"proto2", "proto3", "editions"} \ {ws[g].syntax} :
     Accept([ws EXCEPT ![g].syntax = s], "mut")
-MutSetName == "SetName" \in Muts /\ tag = {} /\
-  \E g \in UFiles : \E d \in Decls(ws[g]) :
-    \E n \in (TypeNames \cup FldNames \cup ValNames) \ {ws[g].decls[d].name} :
-      Accept(SetDecl(g, d, [ws[g].decls[d] EXCEPT !.name = n]), "mut")
-MutSetPkg == "SetPkg" \in Muts /\ tag = {} /\
+(* rename a declaration to a name that can collide: a sibling's name, a reserved name of its message,
+   the JSON twin of a sibling field's name, (top level) the first package component of a file *)
+JsonTwins == {<<"z_f", "zF">>, <<"zF", "z_f">>}
+CollisionNames(g, d) ==
+  LET F == ws[g]
+      sp == ScopeParent(F, d)
+      sibs == {F.decls[x].name : x \in {y \in Decls(F) : y # d /\ ScopeParent(F, y) = sp}}
+  IN sibs
+     \cup (IF sp = 0 THEN {w[1] : w \in {ws[h].pkg : h \in UFiles} \ {<<>>}} ELSE {})
+     \cup (IF F.decls[d].kind = "field" THEN Range(F.decls[sp].rn) \cup {t[2] : t \in {u \in JsonTwins : u[1] \in sibs}} ELSE {})
+MutSetName == "SetName" \in Muts /\ MutOK /\
+  \E g \in UFiles : \E d \in Decls(ws[g]) : \E nm \in CollisionNames(g, d) \ {ws[g].decls[d].name} :
+    Accept(SetDecl(g, d, [ws[g].decls[d] EXCEPT !.name = nm]), "mut")
+MutSetPkg == "SetPkg" \in Muts /\ MutOK /\
   \E g \in UFiles : \E p \in {<<>>, <<"a">>, <<"b">>, <<"a", "b">>, <<"m">>, <<"a", "m">>} \ {ws[g].pkg} :
     Accept([ws EXCEPT ![g].pkg = p], "mut")
-MutSetValNum == "SetValNum" \in Muts /\ tag = {} /\
+MutSetValNum == "SetValNum" \in Muts /\ MutOK /\
   \E g \in UFiles : \E v \in OfKind(ws[g], "value") : \E n \in (0..2) \ {ws[g].decls[v].num} :
     Accept(SetDecl(g, v, [ws[g].decls[v] EXCEPT !.num = n]), "mut")
 (* remove a declaration without children; later declarations move up by one *)
@@ -182,38 +231,39 @@ DropAt(F, d) ==
   LET n == Len(F.decls)
       Fix(dl) == IF dl.parent > d THEN [dl EXCEPT !.parent = @ - 1] ELSE dl
   IN [F EXCEPT !.decls = <<>> \o [i \in 1..(n - 1) |-> Fix(F.decls[IF i < d THEN i ELSE i + 1])]]
-MutDropLeaf == "DropLeaf" \in Muts /\ tag = {} /\
+MutDropLeaf == "DropLeaf" \in Muts /\ MutOK /\
   \E g \in UFiles : \E d \in {x \in Decls(ws[g]) : \A c \in Decls(ws[g]) : ws[g].decls[c].parent # x} :
     Accept([ws EXCEPT ![g] = DropAt(@, d)], "mut")
-MutSetMapKey == "SetMapKey" \in Muts /\ tag = {} /\
-  \E g \in UFiles : \E d \in {x \in Flds(ws[g]) : IsMap(ws[g].decls[x])} :
-    \E k \in {"float", "double", "bytes"} :
+MutSetMapKey == "SetMapKey" \in Muts /\ MutOK /\
+  \E g \in UFiles : \E d \in Focus(g) \cap Flds(ws[g]) :
+    \E k \in (IF IsMap(ws[g].decls[d]) THEN {"float", "double", "bytes"} ELSE {"string"}) :
       Accept(SetDecl(g, d, [ws[g].decls[d] EXCEPT !.mapkey = k]), "mut")
-MutSetDflt == "SetDflt" \in Muts /\ tag = {} /\
-  \E g \in UFiles : \E d \in FldsExts(g) : \E v \in {"7", "true", "hi", "za", "zb"} \ {ws[g].decls[d].dflt} :
+MutSetDflt == "SetDflt" \in Muts /\ MutOK /\
+  \E g \in UFiles : \E d \in Focus(g) : \E v \in {"7", "true", "hi", "za", "zb"} \ {ws[g].decls[d].dflt} :
     Accept(SetDecl(g, d, [ws[g].decls[d] EXCEPT !.dflt = v]), "mut")
 
 (* the same attribute edits as ADDITIVE steps when they keep the workspace valid (a default, a
    json_name or a stream flag that was not there before) *)
 AddDflt == "AddDflt" \in Edits /\ tag = {} /\
-  \E g \in UFiles : \E d \in {x \in FldsExts(g) : ws[g].decls[x].dflt = ""} : \E v \in {"7", "true", "hi", "za", "zb"} :
-    Accept(SetDecl(g, d, [ws[g].decls[d] EXCEPT !.dflt = v]), IF "AddDflt" \in MutAdds THEN "both" ELSE "edit")
+  \E g \in UFiles : \E d \in {x \in Focus(g) : ws[g].decls[x].dflt = ""} : \E v \in {"7", "true", "hi", "za", "zb"} :
+    Accept(SetDecl(g, d, [ws[g].decls[d] EXCEPT !.dflt = v]), IF "AddDflt" \in MutAdds /\ MutOK THEN "both" ELSE "edit")
 AddJson == "AddJson" \in Edits /\ tag = {} /\
-  \E g \in UFiles : \E d \in {x \in Flds(ws[g]) : ws[g].decls[x].json = ""} : \E v \in {"zj", "zF", "Zf"} :
-    Accept(SetDecl(g, d, [ws[g].decls[d] EXCEPT !.json = v]), IF "AddJson" \in MutAdds THEN "both" ELSE "edit")
+  \E g \in UFiles : \E d \in {x \in Focus(g) \cap Flds(ws[g]) : ws[g].decls[x].json = ""} : \E v \in {"zj", "zF", "Zf"} :
+    Accept(SetDecl(g, d, [ws[g].decls[d] EXCEPT !.json = v]), IF "AddJson" \in MutAdds /\ MutOK THEN "both" ELSE "edit")
 
 Next == \/ AddMsg \/ AddEnum \/ AddVal \/ AddFld \/ AddMap \/ AddOneof \/ AddExt \/ AddSvc \/ AddMtd
         \/ AddImport \/ AddRange \/ AddRName \/ AddDflt \/ AddJson
         \/ MutSetNum \/ MutSetLabel \/ MutRetarget \/ MutSetSyntax \/ MutSetName \/ MutSetPkg
         \/ MutSetValNum \/ MutDropLeaf \/ MutSetMapKey \/ MutSetDflt
 
-InitWs == {BaseWs(b, PkgOf(p)) : b \in Bases, p \in Pkg1Ids}
-Init == /\ tag = {}
-        /\ ws \in InitWs
+InitWs == {<<b, BaseWs(b, PkgOf(p))>> : b \in {x \in Bases : ~IsRich(x)}, p \in Pkg1Ids}
+          \cup {<<b, RichWs(b)>> : b \in {x \in Bases : IsRich(x)}}
+Init == /\ tag = {} /\ nadd = 0
+        /\ \E i \in InitWs : base = i[1] /\ ws = i[2]
 Spec == Init /\ [][Next]_vars
 
 (* the base workspaces must be valid and covered: an invariant that only bites on initial states *)
-BasesValid == ws \in InitWs => (Broken(ws) = {} /\ CoveredX(Sane(ws), AllRefs(Sane(ws))))
+BasesValid == nadd = 0 /\ tag = {} => (Broken(ws) = {} /\ CoveredX(Sane(ws), AllRefs(Sane(ws))))
 
 -----------------------------------------------------------------------------
 (* feature tags of a case (the lookup rule ids of its references are added by the driver) *)
